@@ -12,6 +12,7 @@ import TonVerif.Proofs.PruneWF
 import TonVerif.Proofs.SrcArith
 import TonVerif.Generated.LevelMask
 import TonVerif.Generated.CellArith
+import TonVerif.Proofs.SrcCellCtor
 
 namespace TonVerif.Properties.C02
 open TonVerif TonVerif.Model TonVerif.Proofs.CellSpec
@@ -289,5 +290,77 @@ example : Generated.lmLevel 5 = 3 ∧ Generated.lmHashIndex 5 = 2 ∧ Generated.
   decide +kernel
 
 end Src
+
+/-! ## Source-regenerated constructor (`Generated/CellCtor.lean`: `Cell.__init__`, `resolve_mask`, the `calculate_hashes` loop,
+`get_descriptors`, `get_data_bytes` (completion tag), `get_hash` / `get_depth`, `NullCell.__init__` and the `CellTypes` constants
+are re-translated from cell.py / deserialize.py / exotic.py on every run by harness/translate/cellctor.py + pyobj.py)
+
+`Generated.CellCtor.init H bits refs cell_type` is the mechanical translation of the constructor: `none` where the Python code
+raises (the three `raise` points of `calculate_hashes`, `resolve_mask`'s checks, `to_bytes` overflow, IndexError), otherwise the
+level mask, `_hashes` and `_depths` of the new cell; a child is given by its `CellInfo`, `hashlib.sha256` is the parameter `H`.
+The hand model `Model.construct` — about which `c02_model_eq_spec`, the pruning theorems, C01 and the C11 binding theorems are
+proved — is thereby tied to the source for ALL inputs, not by samples. -/
+section SrcCtor
+open TonVerif.Generated.CellCtor TonVerif.Proofs.SrcCellCtor
+
+/-- For ALL cell types (also unknown ones), bit strings (any length) and lists of child infos (any number, any contents):
+the regenerated constructor and the hand model take the same decision to raise and return the same cell info (level mask,
+`_hashes`, `_depths`), and the other attributes the constructor sets are the model's: `_hash` = `CellInfo.hash` (the LAST entry of
+`_hashes`), `_descriptors`, `_data_bytes` (`CtorOut.ofModel`, Model/CellCtorView.lean); and the
+regenerated `get_hash` / `get_depth` / `get_data_bytes` / `resolve_mask` (what other cells and C11 read from a constructed cell)
+are the hand model's. -/
+theorem c02_src_constructor (H : Bytes → Bytes) (kind : Int) (bits : Bits) (refs : List CellInfo) :
+    init H bits refs kind = (construct H kind bits refs).map CtorOut.ofModel ∧
+    (init H bits refs kind).map CtorOut.toInfo = construct H kind bits refs ∧
+    resolve_mask (self_type_ := kind) (self_refs := refs) (self_bits := bits) = resolveMask kind bits refs ∧
+    get_data_bytes (self_bits := bits) = some (dataBytes bits) ∧
+    (∀ (c : CellInfo) (l : Nat),
+      get_hash l (self_level_mask := c.mask) (self_type_ := c.kind) (self_bits := c.bits) (self__hashes := c.hashes) = c.getHash l ∧
+      get_depth l (self_level_mask := c.mask) (self_type_ := c.kind) (self_bits := c.bits) (self__depths := c.depths) = c.getDepth l) :=
+  ⟨src_construct_eq_model H kind bits refs, src_construct_info H kind bits refs, resolve_mask_eq kind bits refs, get_data_bytes_eq bits,
+    fun c l => ⟨get_hash_eq l c, get_depth_eq l c⟩⟩
+
+/-- the hashing loop alone: `calculate_hashes` on a fresh cell (empty `_hashes` / `_depths`) is the fold of the hand model's
+`hashStep` over the levels `0..level`, with the hash-index offset `total - hash_count` of the source. -/
+theorem c02_src_calculate_hashes (H : Bytes → Bytes) (mask : Nat) (kind : Int) (refs : List CellInfo) (bits : Bits) :
+    calculate_hashes H (self_level_mask := mask) (self_type_ := kind) (self__depths := []) (self__hashes := []) (self_refs := refs)
+        (self_is_exotic := decide (kind ≠ -1)) (self_bits := bits) =
+      ((List.range (bitLength mask + 1)).foldlM
+          (hashStep H kind bits refs mask (popcount mask + 1 - (if kind == kPruned then 1 else popcount mask + 1))) ⟨0, [], []⟩).map
+        (fun st => (st.depths, st.hashes)) :=
+  calculate_hashes_eq H mask kind refs bits
+
+/-- `c02_model_eq_spec` for the regenerated code: applying the REGENERATED constructor bottom-up to any spec-valid tree (pruned
+branches of any mask, library cells, Merkle proofs / updates in any nesting) succeeds and yields the spec's level mask and the
+spec's hash and depth at every level. -/
+theorem c02_src_eq_spec (H : Bytes → Bytes) (c : Cell) (wf : TreeWF H c) :
+    ∃ i s, srcInfo H c = some i ∧ specInfo H c = some s ∧
+      i.mask = s.mask ∧ ∀ l, i.getHash l = some (s.hashAt l) ∧ i.getDepth l = some (s.depthAt l) := by
+  rw [srcInfo_eq]; exact c02_model_eq_spec H c wf
+
+/-! Non-vacuity: the regenerated constructor builds the gap-mask pruned branch of `prunedMask6` (spec-valid, see above) and the
+two-cell tree; and it refuses a pruned branch that has a reference. -/
+example (H : Bytes → Bytes) : (srcInfo H prunedMask6).isSome = true := by
+  obtain ⟨i, _, hi, _⟩ := c02_src_eq_spec H prunedMask6 (by
+    unfold prunedMask6 TreeWF
+    refine ⟨by simp [TreesWF], .pruned, [], by decide, by simp [specInfos], ?_⟩
+    refine ⟨by decide +kernel, by decide, by simp, by simp, ?_, by simp, by simp, by simp⟩
+    intro _
+    refine ⟨rfl, by decide +kernel, ?_, ?_⟩ <;> decide +kernel)
+  simp [hi]
+
+example : (srcInfo toyH tree0).isSome = true := by
+  obtain ⟨i, _, hi, _⟩ := c02_src_eq_spec toyH tree0 tree0_wf
+  simp [hi]
+
+example (H : Bytes → Bytes) (i : CellInfo) : init H (bytesToBits ([1, 1] ++ List.replicate 34 0)) [i] 1 = none := by
+  rw [(c02_src_constructor H _ _ _).1]
+  simp [construct, resolveMask, kPruned, kOrdinary]
+
+/-- a cell of level 1 has two hashes and `Cell.hash` is the LAST one (ofModel on a concrete info) -/
+example : (CtorOut.ofModel { kind := -1, bits := [], nrefs := 1, mask := 1, hashes := [[1], [2]], depths := [1, 1] }).hash = [2] := by
+  decide
+
+end SrcCtor
 
 end TonVerif.Properties.C02
